@@ -12,6 +12,12 @@
 //        [5,height,[n_0..n_{k-1}]]       restart: a fresh pool over a ledger with these nonces
 //        [6,k]                           k rounds of (GenerateBlock; CommitTransactions(that batch))
 //        [7,acct,n]                      the ledger oracle (GetAccountNonce) now reports n for acct
+//        [8,height,[n_0..],acct,m]       restart as [5,..], with a CONCURRENT API query: GetPendingNonceByAccount(acct) is started in its
+//                                        own goroutine and its first ledger look-up (the oracle callback) is held back; the observation of
+//                                        the restart step and the next m operations run in a second goroutine meanwhile; if they have not
+//                                        finished after a short grace (they wait behind the query's locks) the look-up is released first,
+//                                        otherwise after them; both goroutines are joined before the history goes on. The model sees a
+//                                        plain restart: the query is atomic with respect to pool operations.
 //   tx = [acct,nonce,id,ts]; account i is the i-th smallest of k fixed addresses in the string
 //   order the pool itself uses.
 // output (one JSON object per history): {"steps":[obs,...]} with
@@ -91,6 +97,10 @@ type world struct {
 	logger  *logrus.Logger
 	t0      int64
 	txcache map[[4]int64]pb.Transaction
+	// concurrent API query: the first ledger look-up for holdAcct waits for release
+	holdAcct string
+	entered  chan struct{}
+	release  chan struct{}
 }
 
 func newWorld(k int) *world {
@@ -138,7 +148,15 @@ func (w *world) fresh(height uint64, ledger []uint64) {
 		ChainHeight: height,
 		Logger:      w.logger,
 		GetAccountNonce: func(a *types.Address) uint64 {
-			return led[a.String()]
+			v := led[a.String()]
+			if w.holdAcct != "" && a.String() == w.holdAcct {
+				select {
+				case w.entered <- struct{}{}:
+					<-w.release
+				default:
+				}
+			}
+			return v
 		},
 	})
 }
@@ -355,7 +373,17 @@ func runHistory(line []byte) (out interface{}, err error) {
 		}
 		univ = append(univ, tx)
 	}
-	for _, op := range h.Ops {
+	for i := 0; i < len(h.Ops); i++ {
+		op := h.Ops[i]
+		if code, _ := num(op[0]); len(op) == 5 && code == 8 {
+			n, e := w.concurrentQuery(op, h.Ops[i+1:], univ, &res)
+			if e != nil {
+				res.Err = "op"
+				return res, nil
+			}
+			i += n
+			continue
+		}
 		bs, removed, err := w.step(op)
 		if err != nil {
 			res.Err = "op"
@@ -364,6 +392,74 @@ func runHistory(line []byte) (out interface{}, err error) {
 		res.Steps = append(res.Steps, w.observe(univ, bs, removed))
 	}
 	return res, nil
+}
+
+// concurrentQuery implements op 8; returns how many of the following operations ran inside the window.
+func (w *world) concurrentQuery(op []json.RawMessage, rest [][]json.RawMessage, univ []pb.Transaction, res *histOut) (int, error) {
+	hgt, _ := num(op[1])
+	var led []uint64
+	if err := json.Unmarshal(op[2], &led); err != nil {
+		return 0, err
+	}
+	acct, _ := num(op[3])
+	m, _ := num(op[4])
+	if acct < 0 || int(acct) >= len(w.names) || m < 0 {
+		return 0, fmt.Errorf("bad query")
+	}
+	if int(m) > len(rest) {
+		m = int64(len(rest))
+	}
+	for _, o := range rest[:m] {
+		if c, _ := num(o[0]); len(o) == 5 && c == 8 {
+			return 0, fmt.Errorf("nested query")
+		}
+	}
+	w.holdAcct = w.names[acct]
+	w.entered = make(chan struct{})
+	w.release = make(chan struct{})
+	w.fresh(uint64(hgt), led)
+	pool := w.pool
+	apiDone := make(chan uint64, 1)
+	go func() { apiDone <- pool.GetPendingNonceByAccount(w.names[acct]) }()
+	select {
+	case <-w.entered:
+	case <-time.After(500 * time.Millisecond):
+	}
+	type stepRes struct {
+		obs []obsOut
+		err error
+	}
+	done := make(chan stepRes, 1)
+	go func() {
+		var r stepRes
+		defer func() {
+			if p := recover(); p != nil {
+				r.err = fmt.Errorf("panic")
+			}
+			done <- r
+		}()
+		r.obs = append(r.obs, w.observe(univ, nil, 0))
+		for _, o := range rest[:m] {
+			bs, removed, err := w.step(o)
+			if err != nil {
+				r.err = err
+				return
+			}
+			r.obs = append(r.obs, w.observe(univ, bs, removed))
+		}
+	}()
+	var r stepRes
+	select {
+	case r = <-done:
+		close(w.release)
+	case <-time.After(40 * time.Millisecond):
+		close(w.release)
+		r = <-done
+	}
+	<-apiDone
+	w.holdAcct = ""
+	res.Steps = append(res.Steps, r.obs...)
+	return int(m), r.err
 }
 
 // ---------------------------------------------------------------------------------------------
